@@ -38,7 +38,7 @@ func Like(p1 value.Primary, p2 value.Primary) ternary.Value {
 	pattern := strings.ToUpper(s2.(*value.String).Raw())
 	value.Discard(s2)
 
-	if str == pattern {
+	if str == pattern && !strings.Contains(pattern, "\\") {
 		return ternary.TRUE
 	}
 	if len(pattern) < 1 {
